@@ -118,7 +118,7 @@ def describe(groups, cols, ids):
 def run(ctx, backend):
     ctx.rule = ("typed scalar filters from derivation machine MC_Sem (profiles logic / arith / strings / misc), each "
                 "with the valuations of its referenced columns for which Sem!Eval = TRUE over the domain "
-                "{NULL,-2,0,1,3} x {NULL,'','a','ab','ba','a%b','a_b','%','_',\"o'r\",'\\\\'} x {NULL,T,F} x 4 datetimes; "
+                "{NULL,-2,0,1,3} x {NULL,'','a','ab','ba','a%b','a_b','%','_',\"o'r\",'\\\\','a b'} x {NULL,T,F} x 4 datetimes; "
                 "two renderings each; non-trivial = distinct filter with >= 1 operator whose expected row set is "
                 "neither empty nor everything")
     ctx.trusted = ["spec/Sem.tla (three-valued reference semantics)", "SQLite 3.40 as the engine",
